@@ -125,12 +125,7 @@ def run_cfg(ctx, p, cfg):
     with ctx.rule("R4", "open options", cfg) as r:
         b = p.fn(BUILD)
         opn = b.call1("std::fs::OpenOptions::open", "OpenOptions::open")
-        chain = opn.arg(0)
-        opts = {}
-        for c in calls_in(chain):
-            n = c[1]
-            if n.startswith("std::fs::OpenOptions::") and len(c[2]) == 2:
-                opts.setdefault(n.rsplit("::", 1)[-1], []).append(c[2][1])
+        opts = common.open_options(b, opn)
         # the builder's flag: the field written by the public setter FileAppenderBuilder::append
         setter = p.fn("append::file::FileAppenderBuilder::append")
         flag_fields = set()
